@@ -56,6 +56,14 @@ def nilstate(n):       # loop(n, s) with s = Nil / empty list / 0 / empty string
     return (f"{enc(n)} (ㅁㄹㅎㄱ) ((ㄴㅇㄱ) ((ㄱㅇㄱ ㄴㄱ ㄷㅎㄷ) (ㄴㅇㄱ (ㅁㄹㅎㄱ) ㄷㅎㄷ) ㄱㅇ ㅎㄷ) ((ㄴㅇㄱ ㄴㅇㄱ ㄴㅎㄷ) {COND} ㄱㅎㄷ) ㅎㄷ ㅎ) ㅎㄷ", "[]")
 
 
+def carried(n):        # f(n, b) = n == 0 ? b + 0 : f(n-1, b): a parameter handed on untouched (a chain of references to an evaluated value)
+    return (f"{enc(n)} ㅈ ((ㄴㅇㄱ ㄱ ㄷㅎㄷ) ((ㄱㅇㄱ ㄴㄱ ㄷㅎㄷ) ㄴㅇㄱ ㄱㅇ ㅎㄷ) {COND} ㅎㄷ ㅎ) ㅎㄷ", "7")
+
+
+def carried_fn(n):     # the same with a function carried along and called at the end
+    return (f"{enc(n)} (ㄱㅇㄱ ㄴ ㄷㅎㄷ ㅎ) ((ㅂ ㄴㅇㄱ ㅎㄴ) ((ㄱㅇㄱ ㄴㄱ ㄷㅎㄷ) ㄴㅇㄱ ㄱㅇ ㅎㄷ) {COND} ㅎㄷ ㅎ) ㅎㄷ", "6")
+
+
 def nontail(n):        # s(n) = n == 0 ? 0 : n + s(n-1)   (frames grow with n)
     return (f"{enc(n)} ㄱ (ㄱㅇㄱ ((ㄱㅇㄱ ㄴㄱ ㄷㅎㄷ) ㄱㅇ ㅎㄴ) ㄷㅎㄷ) {COND} ㅎㄷ ㅎ ㅎㄴ", str(n * (n + 1) // 2))
 
@@ -70,7 +78,7 @@ def nestfmt(n):        # printing a list nested n deep (KNOWN FINDING for large 
 
 TAIL = {'countdown': countdown, 'accum': accum, 'mutual': mutual, 'viabool': viabool, 'rbind': rbind,
         'viahelper': viahelper, 'viaid': viaid, 'viathunk': viathunk, 'viatry': viatry,
-        'boolflag': boolflag, 'nilstate': nilstate}
+        'boolflag': boolflag, 'nilstate': nilstate, 'carried': carried, 'carried-fn': carried_fn}
 
 
 @monitor('c05_value')
